@@ -371,6 +371,26 @@ def twin_oracle(spec, inp):
     return n_all > n_body, bad
 
 
+def inert_error_stop(ctx):
+    """F-07c: an error stop only works once streamline() has flattened `a - b` (built as And([And([a, _ErrorStop]), b])), and
+    streamline() never reaches the expressions held in SkipTo(ignore=...), stop_on= or fail_on=.  For stop_on / fail_on this cannot
+    be observed (they treat a fatal exception as a non-match anyway); an ignore expression of SkipTo can show it."""
+    import pyparsing as pp
+
+    def run(e, s):
+        try:
+            return ("ok", e.parse_string(s).as_list())
+        except pp.ParseBaseException as x:
+            return (type(x).__name__, x.loc)
+    a = run(pp.SkipTo("x", ignore=pp.Literal("#") - "!"), "a # b x")
+    b = run(pp.OneOrMore(pp.Word("ab")).ignore(pp.Literal("#") - "!"), "a # b")
+    ctx.case("inert-error-stop:skipto-ignore", True, True)
+    if b[0] == "ParseSyntaxException" and a[0] != "ParseSyntaxException":
+        ctx.violation("error-stop-inert:skipto-ignore-expression-not-streamlined",
+                      "the ignorable `Literal('#') - '!'` fails after its error stop: as OneOrMore(...).ignore(...) on 'a # b' it raises %r, as SkipTo('x', ignore=...) on "
+                      "'a # b x' it gives %r" % (b, a), {"kind": "inert"})
+
+
 def correspond(ctx):
     corr.ensure_driver()
     rng = ctx.rng
@@ -527,6 +547,7 @@ def correspond(ctx):
                         ctx.violation("lookahead-twin:%r|%r" % (spec, inp), bad, {"kind": "twin", "spec": spec, "input": inp})
     ctx.stat("oracle_twin_cases_with_fatal_sentinel", ntw)
     ctx.stat("oracle_lr_cases_with_fatal", nlr)
+    inert_error_stop(ctx)
     ctx.stat("oracle_cases", len(cases))
     ctx.stat("oracle_cases_with_fatal", nfatal)
     ctx.sample({"grammar": ("mf", ("andstop", 1, gen.A, gen.B), gen.A), "input": "ac", "impl": oracle_case(("mf", ("andstop", 1, gen.A, gen.B), gen.A), {}, "ac")})
@@ -582,6 +603,13 @@ def _tuplify(x):
 
 def replay(ctx, obj):
     r = obj["replay"]
+    if r.get("kind") == "inert":
+        c2 = vlib.Ctx(PROP, "quick", 0)
+        c2.known = {}
+        inert_error_stop(c2)
+        for v in c2.violations:
+            print(v["what"])
+        return not c2.violations
     if r.get("kind") == "debug":
         g, env = _tuplify(r["grammar"]), {int(k): _tuplify(v) for k, v in (r.get("env") or {}).items()}
         a, b = outcome_with_debug(g, env, r["input"], False), outcome_with_debug(g, env, r["input"], r.get("which") or "all")
